@@ -559,3 +559,55 @@ Proof.
   - exfalso. apply Hn. exact I.
   - exfalso. apply Hn. exact I.
 Qed.
+
+(** * agreement with the models of C12 (Padded.v) and C11 (Keys.v), which transcribe the same
+      Rust functions independently: the panic condition / the selected string coincide *)
+Require IndModel.Padded IndModel.Keys.
+
+Definition conv_align (a : Padded.align) : align :=
+  match a with Padded.ALeft => ALeft | Padded.ACenter => ACenter | Padded.ARight => ARight end.
+
+Lemma padded_sites_agrees (s : Padded.str) w a tr :
+  is_ok (Padded.padded s w a tr)
+  = is_ok (padded_sites (mkmt (Padded.blen s) (Padded.cols s)) w (conv_align a) tr).
+Proof.
+  unfold Padded.padded, padded_sites, Padded.trunc_range. cbn [mt_len mt_cols].
+  destruct ((0 <? Padded.cols s - w) && negb tr); [reflexivity|].
+  destruct (0 <? Padded.cols s - w).
+  - destruct a; cbn [conv_align].
+    + destruct (Padded.blen s <? Padded.cols s - w); reflexivity.
+    + destruct (Padded.blen s <? Padded.cols s - w - (Padded.cols s - w) / 2); reflexivity.
+    + reflexivity.
+  - destruct (Padded.pad_split a (w - Padded.cols s)); reflexivity.
+Qed.
+
+Lemma get_tick_str_agrees ticks idx s :
+  get_tick_str ticks idx = Ok s -> Keys.get_tick_str ticks idx = s.
+Proof.
+  unfold get_tick_str, Keys.get_tick_str, nlen.
+  destruct (N.of_nat (length ticks) =? 0); [discriminate|].
+  destruct (N.of_nat (length ticks) - 1 =? 0); [discriminate|].
+  destruct (nth_error ticks (N.to_nat (idx mod (N.of_nat (length ticks) - 1)))) as [x|] eqn:E; [|discriminate].
+  intros H; inversion H; subst. apply nth_error_nth. exact E.
+Qed.
+
+Lemma get_final_tick_str_agrees ticks s :
+  get_final_tick_str ticks = Ok s -> Keys.get_final_tick_str ticks = s.
+Proof.
+  unfold get_final_tick_str, Keys.get_final_tick_str, nlen.
+  destruct (N.of_nat (length ticks) =? 0); [discriminate|].
+  destruct (nth_error ticks (N.to_nat (N.of_nat (length ticks) - 1))) as [x|] eqn:E; [|discriminate].
+  intros H; inversion H; subst.
+  replace (N.to_nat (N.of_nat (length ticks) - 1)) with (length ticks - 1)%nat in E by lia.
+  apply nth_error_nth. exact E.
+Qed.
+
+Theorem models_agree :
+  (forall (s : Padded.str) w a tr,
+     is_ok (Padded.padded s w a tr)
+     = is_ok (padded_sites (mkmt (Padded.blen s) (Padded.cols s)) w (conv_align a) tr))
+  /\ (forall ticks idx s, get_tick_str ticks idx = Ok s -> Keys.get_tick_str ticks idx = s)
+  /\ (forall ticks s, get_final_tick_str ticks = Ok s -> Keys.get_final_tick_str ticks = s).
+Proof.
+  split; [exact padded_sites_agrees|]. split; [exact get_tick_str_agrees | exact get_final_tick_str_agrees].
+Qed.
